@@ -42,7 +42,7 @@ def corrupt(lex, r):
              'blank-ili-def', 'blank-definition', 'blank-example', 'repeated-definition', 'repeated-definition-same-synset',
              'self-loop', 'redundant-relation', 'redundant-relation-dctype', 'unreciprocated', 'reciprocated', 'pos-clash',
              'pos-missing-hypernym', 'instance-hypernym-clash', 'invalid-synset-reltype', 'invalid-sense-reltype',
-             'invalid-sense-synset-reltype', 'sense-synset-id-shared']
+             'invalid-sense-synset-reltype', 'sense-synset-id-shared', 'synset-rel-to-sense-id', 'sense-rel-to-entry-id']
     k = r.choice(kinds)
     try:
         if k == 'dup-entry-id' and len(entries) >= 1:
@@ -146,6 +146,10 @@ def corrupt(lex, r):
             r.choice(senses)[1].setdefault('relations', []).append({'target': r.choice(senses)[1]['id'], 'relType': r.choice(['hypernym', 'bogus']), 'meta': None})
         elif k == 'invalid-sense-synset-reltype' and senses and synsets:
             r.choice(senses)[1].setdefault('relations', []).append({'target': r.choice(synsets)['id'], 'relType': r.choice(['antonym', 'bogus']), 'meta': None})
+        elif k == 'synset-rel-to-sense-id' and senses and synsets:
+            r.choice(synsets).setdefault('relations', []).append({'target': r.choice(senses)[1]['id'], 'relType': 'also', 'meta': None})
+        elif k == 'sense-rel-to-entry-id' and senses and entries:
+            r.choice(senses)[1].setdefault('relations', []).append({'target': r.choice(entries)['id'], 'relType': 'also', 'meta': None})
         elif k == 'sense-synset-id-shared' and senses and synsets:
             r.choice(senses)[1]['id'] = r.choice(synsets)['id']
         else:
